@@ -116,3 +116,111 @@ example :
     rw [← this]; exact InSpan.add InSpan.zero (by decide))
 
 end Stim.C04b
+
+namespace Stim.C04b
+open Stim Stim.GF2
+
+/-! ## Observables are linear too -/
+
+/-- value of observable `j` in the sparse accumulator (what the oracle reads) -/
+def ov (obs : List (Nat × Bool)) (j : Nat) : Bool := ((obs.find? (·.1 == j)).map (·.2)).getD false
+
+def tog (k : Nat) (b : Bool) (p : Nat × Bool) : Nat × Bool := if p.1 == k then (p.1, p.2 != b) else p
+
+theorem tog_eq (k : Nat) (b : Bool) : (fun (x : Nat × Bool) => match x with | (i, v) => if i == k then (i, v != b) else (i, v)) = tog k b := by
+  funext x; obtain ⟨i, v⟩ := x; simp [tog]
+
+theorem tog_fst (k : Nat) (b : Bool) (p : Nat × Bool) : (tog k b p).1 = p.1 := by
+  unfold tog; split <;> rfl
+
+theorem find_map_toggle (obs : List (Nat × Bool)) (k j : Nat) (b : Bool) :
+    ((obs.map (tog k b)).find? (·.1 == j)) = (obs.find? (·.1 == j)).map (tog k b) := by
+  induction obs with
+  | nil => simp
+  | cons x xs ih =>
+    simp only [List.map_cons, List.find?_cons, tog_fst]
+    cases h : (x.1 == j) <;> simp [ih]
+
+theorem ov_xorObs (obs : List (Nat × Bool)) (k j : Nat) (b : Bool) :
+    ov (xorObs obs k b) j = (ov obs j != (decide (j = k) && b)) := by
+  unfold xorObs
+  split
+  · rename_i hany
+    rw [tog_eq]
+    simp only [ov, find_map_toggle]
+    cases hf : obs.find? (·.1 == j) with
+    | none =>
+      simp only [Option.map_none, Option.getD_none]
+      by_cases hjk : j = k
+      · subst hjk
+        rw [List.find?_eq_none] at hf
+        rw [List.any_eq_true] at hany
+        obtain ⟨x, hx, hxk⟩ := hany
+        exact absurd hxk (hf x hx)
+      · simp [hjk]
+    | some x =>
+      obtain ⟨i, v⟩ := x
+      have hij : i = j := by
+        have := List.find?_some hf
+        simpa using this
+      subst hij
+      by_cases hik : i = k
+      · subst hik; simp [tog]
+      · have : (i == k) = false := by simpa using hik
+        simp [tog, this, hik]
+  · rename_i hany
+    have hno : obs.find? (·.1 == k) = none := by
+      rw [List.find?_eq_none]
+      intro x hx hxk
+      exact hany (List.any_eq_true.mpr ⟨x, hx, hxk⟩)
+    simp only [ov, List.find?_append]
+    by_cases hjk : j = k
+    · subst hjk
+      simp [hno]
+    · cases hf : obs.find? (·.1 == j) with
+      | none =>
+        have : (k == j) = false := by simp; omega
+        simp [this, hjk]
+      | some x => simp [hjk]
+
+/-- the observable part of `paritiesGo` is linear in (record, accumulated observables) -/
+theorem paritiesGo_obs_linear : ∀ (ops : List Op) (k : Nat) (a b d1 d2 d3 : List Bool)
+    (o1 o2 o3 : List (Nat × Bool)) (p1 p2 p3 : List Nat),
+    a.length = b.length → (∀ j, ov o1 j = (ov o2 j != ov o3 j)) →
+    ∀ j, ov (paritiesGo ops k (Stim.C04.xv a b) d1 o1 p1).2.1 j
+          = (ov (paritiesGo ops k a d2 o2 p2).2.1 j != ov (paritiesGo ops k b d3 o3 p3).2.1 j)
+  | [], _, _, _, _, _, _, _, _, _, _, _, _, _, ho => by simpa [paritiesGo] using ho
+  | .rep _ _ _ :: os, k, a, b, d1, d2, d3, o1, o2, o3, p1, p2, p3, h, ho => by
+    simp only [paritiesGo]
+    exact paritiesGo_obs_linear os k a b d1 d2 d3 o1 o2 o3 p1 p2 p3 h ho
+  | .instr g tag args ts :: os, k, a, b, d1, d2, d3, o1, o2, o3, p1, p2, p3, h, ho => by
+    simp only [paritiesGo]
+    split
+    · exact paritiesGo_obs_linear os k a b _ _ _ o1 o2 o3 p1 p2 p3 h ho
+    · split
+      · -- OBSERVABLE_INCLUDE
+        have hlook : ∀ t : Target,
+            (if t.value == 0 || t.value > k then false else (Stim.C04.xv a b).getD (k - t.value) false)
+              = ((if t.value == 0 || t.value > k then false else a.getD (k - t.value) false)
+                 != (if t.value == 0 || t.value > k then false else b.getD (k - t.value) false)) := by
+          intro t
+          split
+          · rfl
+          · exact Stim.C04.xv_getD a b _ h
+        have hfold := Stim.C04.fold_lin ts _ _ _ hlook false false
+        simp only [show (false != false) = false by rfl] at hfold
+        apply paritiesGo_obs_linear os k a b d1 d2 d3 _ _ _ _ _ _ h
+        intro j
+        rw [ov_xorObs, ov_xorObs, ov_xorObs, ho j]
+        rw [hfold]
+        cases ov o2 j <;> cases ov o3 j <;> cases decide (j = _) <;> simp <;>
+          (cases (List.foldl _ false ts) <;> cases (List.foldl _ false ts) <;> rfl)
+      · exact paritiesGo_obs_linear os _ a b d1 d2 d3 o1 o2 o3 p1 p2 p3 h ho
+
+/-- **Observable flips of the XOR of two records are the XOR of their observable flips** (record targets). -/
+theorem observables_linear (c : Circuit) (a b : List Bool) (h : a.length = b.length) (j : Nat) :
+    ov (parities c (Stim.C04.xv a b)).2.1 j = (ov (parities c a).2.1 j != ov (parities c b).2.1 j) := by
+  unfold parities
+  exact paritiesGo_obs_linear c.unroll 0 a b [] [] [] [] [] [] [] [] [] h (by intro j; simp [ov]) j
+
+end Stim.C04b
